@@ -368,7 +368,7 @@ func checkC03(c *Ctx, r *Report) {
 			}
 			r.Check(okIV && okErr, name+"|IV", encC.Pos(), "IV bytes ← crypto/rand.Read, error checked, then NewCBCEncrypter(cipher, iv)", "the IV handed to the CBC encrypter is not the prepended 16 bytes freshly filled by crypto/rand.Read (a constant or reused IV)")
 			okKey := false
-			if ld, ok := encC.Call.Args[0].(*ssa.UnOp); ok && apOf(ld.X).SelString() == "cipher" {
+			if ld, ok := encC.Call.Args[0].(*ssa.UnOp); ok && apOf(ld.X).SelString() == fAesCipher {
 				okKey = true
 			}
 			r.Check(okKey, name+"|cipher", encC.Pos(), "the layer's AES block cipher", "encryption does not use the layer's cipher")
